@@ -108,6 +108,8 @@ type instance struct {
 	seenMu    *sync.Mutex
 	seen      map[string]map[int64]bool // run -> data identities seen by handlers
 
+	runSeq int64 // plain steps: every call is a run of its own
+
 	peers map[string]any // compat2: the schemas this one is compared with; SHARED by all calls (schemas are
 	// values that may be shared), so that concurrent calls compare the same pair
 
@@ -227,7 +229,11 @@ var ckinds = map[string]kindInfo{
 	"oneof_struct":   {"oneof", []string{"fresh", "rebuilt"}},
 	"enum_str":       {"enum", []string{"fresh", "rebuilt"}},
 	"enum_int":       {"enum", []string{"fresh", "rebuilt"}},
-	"steps":          {"steps", []string{"fresh", "derived"}},
+	"steps":          {"steps", []string{"fresh", "derived", "plain"}},
+	"list_oneof":     {"listarg", []string{"fresh", "rebuilt"}},
+	"list_any":       {"listarg", []string{"fresh", "rebuilt"}},
+	"list_objmap":    {"listarg", []string{"fresh", "rebuilt"}},
+	"map_objmap":     {"listarg", []string{"fresh", "rebuilt"}},
 	"meta":           {"meta", []string{"fresh"}},
 }
 
@@ -371,6 +377,19 @@ func buildScope(ckind string) (*schema.ScopeSchema, error) {
 		return wrap(strEnum("")), nil
 	case "enum_int":
 		return wrap(intEnum("")), nil
+	case "list_oneof":
+		// items of one-of type: the list's reflected type is []any; members are map-based and have defaults
+		a := schema.NewObjectSchema("A", map[string]*schema.PropertySchema{"n": prop(intMax10(), schema.PointerTo("3"))})
+		b := schema.NewObjectSchema("B", map[string]*schema.PropertySchema{"m": prop(intT(), nil)})
+		return wrap(schema.NewListSchema(schema.NewOneOfStringSchema[any](map[string]schema.Object{
+			"a": schema.NewRefSchema("A", nil), "b": schema.NewRefSchema("B", nil)}, discField, false), nil, nil), a, b), nil
+	case "list_any":
+		return wrap(schema.NewListSchema(schema.NewAnySchema(), nil, nil)), nil
+	case "list_objmap":
+		// items are map-based objects with defaults: the list's reflected type is []map[string]any
+		return wrap(schema.NewListSchema(schema.NewRefSchema("item", nil), nil, nil), listItem()), nil
+	case "map_objmap":
+		return wrap(schema.NewMapSchema(schema.NewStringSchema(nil, nil, nil), schema.NewRefSchema("item", nil), nil, nil), listItem()), nil
 	case "mapcoll_units":
 		// integer keys with units: "1m" and "60s" denote the same key
 		return wrap(schema.NewMapSchema(schema.NewIntSchema(nil, nil, schema.UnitDurationSeconds), schema.NewStringSchema(nil, nil, nil), nil, nil)), nil
@@ -399,6 +418,14 @@ func reqScope() *schema.ScopeSchema {
 		props[n] = prop(intT(), nil)
 	}
 	return schema.NewScopeSchema(schema.NewObjectSchema("root", props))
+}
+
+// listItem: a map-based object {n: int at most 10, default 7; t?: int}
+func listItem() *schema.ObjectSchema {
+	return schema.NewObjectSchema("item", map[string]*schema.PropertySchema{
+		"n": prop(intMax10(), schema.PointerTo("7")),
+		"t": prop(intT(), nil),
+	})
 }
 
 // compatScope: Root{a..e, limits: ref Limits}, Limits{count}; with deep=true count is a string - incompatible
@@ -573,6 +600,15 @@ func buildSteps(in *instance) {
 		sig = schema.NewCallableSignalFromSchema[*stepData, stepIn](schema.NewSignalSchema("sig", inScope(), nil), sigHandler)
 	} else {
 		sig = schema.NewCallableSignal[*stepData, stepIn]("sig", inScope(), nil, sigHandler)
+	}
+	if in.origin == "plain" {
+		// a step WITHOUT signal handlers and without step data (NewCallableStep)
+		plain := schema.NewCallableStep[stepIn]("s", inScope(),
+			map[string]*schema.StepOutputSchema{"ok": schema.NewStepOutputSchema(outScope, nil, false)}, nil,
+			func(ctx context.Context, i stepIn) (string, any) { return "ok", stepOut{ID: i.X} })
+		in.callable = schema.NewCallableSchema(plain)
+		in.kind = "steps"
+		return
 	}
 	step := schema.NewCallableStepWithSignals[*stepData, stepIn](
 		"s", inScope(),
